@@ -73,7 +73,7 @@ type c10 struct{}
 
 func init() { register(c10{}) }
 
-const c10Grid = 73
+const c10Grid = 76
 
 // c10Dial names the grid slots 64..67: no seam fault, the kernel-side connect of the SACK variant fails or
 // the handshake is useless (real loopback listener / policy route of the private namespace).
@@ -83,7 +83,7 @@ func (c10) ID() string     { return "C10" }
 func (c10) Level() string  { return "fault_enumeration" }
 func (c10) QuickRuns() int { return c10Grid * 7200 }
 func (c10) Rule() string {
-	return "fault grid: for each seeded base run (every variant, 1-6 TTLs, seeded topology and timing) 64 slots are executed with one injected fault each: handle construction fails; 1st/2nd SetPacketFilter fails; k-th WriteTo fails (k=1..8); k-th Read fails fatally (k=1..20), returns a spurious deadline-exceeded (k=1..10) or zero bytes (k=1..10); k-th SetReadDeadline fails (k=1..8); plus 5 slots with 2-3 seeded faults, plus 5 slots in which the k-th write (k=2..6) blocks for a seeded while and then fails (the receiver keeps accepting replies meanwhile), plus 4 slots in which the SACK variant's real TCP connect fails or is useless (port closed, ENETUNREACH by policy route, SYN-ACK never captured, no SACK-permitted): an error, no result, handles closed exactly once. Run index i = base*64 + slot, so every slot of every base is covered systematically; non-trivial = the fault actually fired (k within the calls the run makes); distinct = distinct (variant, operation, k, class, base shape)"
+	return "fault grid: for each seeded base run (every variant, 1-6 TTLs, seeded topology and timing) 64 slots are executed with one injected fault each: handle construction fails; 1st/2nd SetPacketFilter fails; k-th WriteTo fails (k=1..8); k-th Read fails fatally (k=1..20), returns a spurious deadline-exceeded (k=1..10) or zero bytes (k=1..10); k-th SetReadDeadline fails (k=1..8); plus 5 slots with 2-3 seeded faults, plus 3 slots in which Sink.Close, Source.Close or both report an error (each handle must still be closed exactly once), plus 5 slots in which the k-th write (k=2..6) blocks for a seeded while and then fails (the receiver keeps accepting replies meanwhile), plus 4 slots in which the SACK variant's real TCP connect fails or is useless (port closed, ENETUNREACH by policy route, SYN-ACK never captured, no SACK-permitted): an error, no result, handles closed exactly once. Run index i = base*64 + slot, so every slot of every base is covered systematically; non-trivial = the fault actually fired (k within the calls the run makes); distinct = distinct (variant, operation, k, class, base shape)"
 }
 func (c10) Assumptions() []string {
 	return []string{"faults are injected at the Source/Sink seam and at handle construction; of the three real kernel calls only TCP connect is made to fail (closed port, unreachable policy route); UDP connect and TCP listen are not fault-injected", "a spurious deadline-exceeded or zero-length read may either fail the run or be skipped; anything else (partial path, success with a wrong path) is a violation"}
@@ -108,6 +108,15 @@ func c10Fault(slot int, rng *rand.Rand, timeoutMs int) []sim.Fault {
 		return f("read", slot-40, "zero")
 	case slot <= 58:
 		return f("deadline", slot-50, "fatal")
+	case slot >= 73:
+		// a Close that reports an error: the other handle still has to be closed, each exactly once
+		switch slot {
+		case 73:
+			return f("closeSink", 1, "fatal")
+		case 74:
+			return f("closeSource", 1, "fatal")
+		}
+		return []sim.Fault{{Actor: "c0", Op: "closeSink", K: 1, Class: "fatal"}, {Actor: "c0", Op: "closeSource", K: 1, Class: "fatal"}}
 	case slot >= 68:
 		// the k-th write (k=2..6) blocks for a while and then fails: the receiver keeps working while the
 		// sender sits inside SendProbe (it may accept the destination reply and stop the sender meanwhile)
@@ -209,6 +218,17 @@ func (c10) Check(out *sim.Outcome, ri *RunInfo) []Violation {
 	}
 	if cs.Run != nil && cs.Err != nil {
 		vs = append(vs, Violation{Rule: "C10.partial-result", Detail: fmt.Sprintf("call returned both a result (%d hops) and an error: %v", len(cs.Run.Hops), cs.Err), Facts: facts("variant", variant)})
+	}
+	onlyClose := len(fired) > 0
+	for _, f := range fired {
+		if !strings.HasPrefix(f.Op, "close") {
+			onlyClose = false
+		}
+	}
+	if onlyClose {
+		// a failing Close comes after the run is decided: whether its error is reported is not stated
+		// by the property; that every handle is still closed exactly once is
+		return append(vs, handleViolations(out, variant)...)
 	}
 	fatal := false
 	for _, f := range fired {
@@ -375,6 +395,17 @@ func (c15) Gen(rng *rand.Rand, tier string, i int) *sim.Scenario {
 				sc.Faults = append(sc.Faults, ft)
 			}
 		}
+		if c.Entry != "http_handler" && chance(rng, 0.3) {
+			// several runs fail "for the same reason": identical error texts, distinct failures
+			for k := range sc.Faults {
+				sc.Faults[k].Anon = true
+			}
+		}
+	} else if chance(rng, 0.2) {
+		// the caller gives up at a seeded instant (before the start, between the launches of the
+		// end-to-end probes, while runs are in flight, during enrichment): an error or the full counts
+		span := int64(c.TimeoutMs)*1000 + int64(c.E2E)*300000
+		c.CancelAtUs = int64(pick(rng, 1, between(rng, 1, 2000), between(rng, 1, int(span)), between(rng, 1, int(span))))
 	}
 	return sc
 }
@@ -436,6 +467,23 @@ func (c15) Check(out *sim.Outcome, ri *RunInfo) []Violation {
 		if f.Class == "fatal" {
 			fatal = append(fatal, f)
 		}
+	}
+	if c.CancelAtUs > 0 {
+		// a cancelled request: it may fail, or it may carry on and deliver everything; what it must not
+		// do is return a document with fewer runs or samples than requested as a success
+		ri.probe("request-cancelled")
+		if cs.CancelledAt > 0 && cs.CancelledAt < cs.EndAt {
+			ri.probe("request-cancelled-while-running")
+		}
+		if callErr == nil && results != nil {
+			if n := len(results.Traceroute.Runs); n != c.Queries {
+				vs = append(vs, Violation{Rule: "C15.count", Detail: fmt.Sprintf("request cancelled at %dus returned success with %d runs, %d requested", c.CancelAtUs, n, c.Queries), Facts: facts("protocol", proto, "what", "runs-after-cancel")})
+			}
+			if n := len(results.E2eProbe.RTTs); n != c.E2E {
+				vs = append(vs, Violation{Rule: "C15.count", Detail: fmt.Sprintf("request cancelled at %dus returned success with %d RTT samples, %d requested", c.CancelAtUs, n, c.E2E), Facts: facts("protocol", proto, "what", "rtts-after-cancel")})
+			}
+		}
+		return vs
 	}
 	if len(out.Sc.HTTP) > 0 {
 		ri.probe("publicip-requested")
